@@ -200,6 +200,15 @@ class Model:
 
         if self.sup_model.vars:
 
+            num_rand = self.sup_model.vars[-1].last
+            for dvar in self.dec_vars:
+                # random variables declared after the adapt() calls of dvar
+                if (dvar.rand_adapt is not None and
+                        dvar.rand_adapt.shape[1] < num_rand):
+                    extra = num_rand - dvar.rand_adapt.shape[1]
+                    dvar.rand_adapt = np.hstack((dvar.rand_adapt,
+                                                 np.zeros((dvar.size, extra),
+                                                          dtype=np.int8)))
             adapt_list = [dvar.rand_adapt if dvar.rand_adapt is not None else
                           np.zeros((dvar.size, self.sup_model.vars[-1].last))
                           for dvar in self.dec_vars]
